@@ -340,7 +340,9 @@ pub fn table(root: &AppSpec) -> Table {
                     segs.extend(parse_route(path));
                     let literal = format!("/{}", segs.iter().map(|s| match s { Seg::Static(x) => x.clone(), Seg::Param => ":p".into() }).collect::<Vec<_>>().join("/"));
                     // the same full route may be registered in several pieces (different methods)
-                    if let Some(e) = t.routes.iter_mut().find(|e| e.segs == segs && e.apps == chain) {
+                    // ... also by several applications when none of them has fangs (then there is one route table and no scope)
+                    let fangless = t.apps.iter().all(|a| a.fangs.is_empty());
+                    if let Some(e) = t.routes.iter_mut().find(|e| e.segs == segs && (e.apps == chain || fangless)) {
                         e.methods.extend(methods.clone());
                     } else {
                         t.routes.push(RouteEntry { segs, literal, methods: methods.clone(), apps: chain.clone() });
